@@ -384,6 +384,26 @@ def check_C20(tier, seed):
         if ev:
             violations.append({"reason": "driver died (rc=%s) inside normalize_beatgrid" % ev["rc"], "record": ev})
         outs.append(out)
+    # extreme inputs (the quantifier says "any starting index ... all sample counts"): beat indices at the edges of int32, sample
+    # counts up to 2^63 - 1, in the sanitizer flavour - the arithmetic on the way to the result must not overflow
+    imin, imax = -2 ** 31, 2 ** 31 - 1
+    idx = [imin, imin + 1, -2 ** 30, -5, -4, -3, 0, 7, 2 ** 30, imax - 4, imax - 3, imax - 1, imax]
+    xin = []
+    for a in range(len(idx)):
+        for b in range(a + 1, len(idx)):
+            for (o1, o2) in ((0, 10), (-10, 5), (0, 1000000), (-3, 1e15)):
+                for sc in (1, 1000, 2 ** 31, 2 ** 53 + 1, 2 ** 62, 2 ** 63 - 1):
+                    xin.append({"g": [{"i": idx[a], "o": repr(float(o1))}, {"i": idx[b], "o": repr(float(o2))}], "sc": str(sc)})
+                    if b + 1 < len(idx) and sc in (1000, 2 ** 62):
+                        xin.append({"g": [{"i": idx[a], "o": repr(float(o1))}, {"i": idx[b], "o": repr(float(o2))},
+                                          {"i": idx[b + 1], "o": repr(float(o2) * 2 + 1)}], "sc": str(sc)})
+    sanbin = vbuild.build_bin("puredriver", "san", extra_src=["shim.cpp"])
+    xins = shard_lines([json.dumps(p) + "\n" for p in xin], wd, "bgx", vlib.NCPU)
+    for (p, out, ev) in run_pure(sanbin, "beatgridx", xins, wd, "bgx"):
+        if ev:
+            violations.append({"reason": "undefined behaviour / crash inside normalize_beatgrid on an extreme input (sanitizer build, rc=%s)" % ev["rc"], "record": ev})
+        outs.append(out)
+    inputs += xin
     cfgt = pure_cfg()
 
     def val(f):
